@@ -380,3 +380,107 @@ theorem compound_stack_redo (mm : MM) (hwf : mm.WF) (hwft : mm.WFT) (ks : KStack
   simp only [kstep, take_append_getElem? ks.stack ks.n cs hok, hr, if_true, set_take_append ks.stack ks.n cs hok]
 
 end Store
+
+/-! ### a compound of one is the command alone -/
+
+namespace Store
+
+/-- a compound of one sub-command, executed through the stack, leaves the state the sub-command alone leaves, succeeds
+    exactly when it succeeds, and remembers exactly what it remembers -/
+theorem kstep_exec_single (mm : MM) (ks : KStack) (cs : CStack) (s : St) (sp : Spec)
+    (hrel : ks.stack = cs.stack.map (fun c => [c]) ∧ ks.n = cs.n) :
+    let q := kstep mm ks s (.exec [sp])
+    let r := cstep mm cs s (.exec sp)
+    q.2.1 = r.2.1 ∧ (q.2.2 = "ok" ↔ r.2.2 = "ok") ∧ q.1.stack = r.1.stack.map (fun c => [c]) ∧ q.1.n = r.1.n := by
+  obtain ⟨hst, hn⟩ := hrel
+  simp only [kstep, cstep, snapAll, prepare_snap_fix, joinPrep]
+  cases hs : snap mm s sp with
+  | cannot => simp [hst, hn]
+  | raises => simp [hst, hn]
+  | ok p =>
+    simp only
+    cases hf : p.fix mm s with
+    | raises => simp [runAll, hf, hst, hn]
+    | corner => simp [runAll, hf, hst, hn]
+    | ok c =>
+      simp only [runAll, hf]
+      cases hex : (c.exec mm s).2 with
+      | error e => simp [hex, hst, hn]
+      | ok r => simp [hex, hst, hn, List.map_take]
+
+end Store
+
+namespace Store
+
+theorem undo_eq_raw (mm : MM) (s : St) (c : Cmd) :
+    c.undo mm s = match c.canUndo mm s with
+      | some true => c.undoRaw mm s
+      | _ => (s, .error .runtimeError) := by
+  cases c with
+  | set x f v p => rfl
+  | add x f v i =>
+    simp only [Cmd.undo, Cmd.canUndo, Cmd.undoRaw]
+    cases (slotVals mm s x f).contains v <;> simp
+  | remove x f v i => rfl
+  | move x f v a b =>
+    simp only [Cmd.undo, Cmd.canUndo, Cmd.undoRaw]
+    cases hg : (slotVals mm s x f)[b]? with
+    | none => simp
+    | some w =>
+      by_cases hw : w = v
+      · subst hw
+        simp only [bne_self_eq_false, Bool.false_eq_true, if_false, beq_self_eq_true]
+        cases hp : (step mm s (.pop x f (b : Int))).2 with
+        | error e => rfl
+        | ok r =>
+          simp only
+          have := pop_result mm s _ x f b w r hg (Prod.ext rfl hp)
+          rw [this]; rfl
+      · have h1 : (some w != some v) = true := by simp [hw]
+        have h2 : (w == v) = false := by simp [hw]
+        simp [h1, h2]
+
+theorem kstep_undo_single (mm : MM) (ks : KStack) (cs : CStack) (s : St)
+    (hrel : ks.stack = cs.stack.map (fun c => [c]) ∧ ks.n = cs.n) :
+    let q := kstep mm ks s .undo
+    let r := cstep mm cs s .undo
+    q.2.1 = r.2.1 ∧ (q.2.2 = "ok" ↔ r.2.2 = "ok") ∧ q.1.stack = r.1.stack.map (fun c => [c]) ∧ q.1.n = r.1.n := by
+  obtain ⟨hst, hn⟩ := hrel
+  simp only [kstep, cstep, hn, hst, List.getElem?_map]
+  by_cases h0 : cs.n = 0
+  · simp [h0, hst, hn]
+  · simp only [h0, if_false]
+    cases hc : cs.stack[cs.n - 1]? with
+    | none => simp [hst, hn]
+    | some c =>
+      simp only [Option.map_some, canUndoAll, List.reverse_cons, List.reverse_nil, List.nil_append, undoAll, undo_eq_raw]
+      cases hcu : c.canUndo mm s with
+      | none => simp [hst, hn]
+      | some b =>
+        cases b with
+        | false => simp [hst, hn]
+        | true =>
+          simp only
+          cases hr : (c.undoRaw mm s).2 with
+          | error e => simp [hst, hn]
+          | ok r => simp [hst, hn]
+
+theorem kstep_redo_single (mm : MM) (ks : KStack) (cs : CStack) (s : St)
+    (hrel : ks.stack = cs.stack.map (fun c => [c]) ∧ ks.n = cs.n) :
+    let q := kstep mm ks s .redo
+    let r := cstep mm cs s .redo
+    q.2.1 = r.2.1 ∧ (q.2.2 = "ok" ↔ r.2.2 = "ok") ∧ q.1.stack = r.1.stack.map (fun c => [c]) ∧ q.1.n = r.1.n := by
+  obtain ⟨hst, hn⟩ := hrel
+  simp only [kstep, cstep, hn, hst, List.getElem?_map]
+  cases hc : cs.stack[cs.n]? with
+  | none => simp [hst, hn]
+  | some c =>
+    have hd : (∃ e, (c.redo mm s).2 = .error e) ∨ (∃ r, (c.redo mm s).2 = .ok r) := by
+      cases (c.redo mm s).2 with
+      | error e => exact Or.inl ⟨e, rfl⟩
+      | ok r => exact Or.inr ⟨r, rfl⟩
+    rcases hd with ⟨e, he⟩ | ⟨r, hr⟩
+    · simp [redoAll, he, hst, hn]
+    · simp [redoAll, hr, hst, hn, List.map_set]
+
+end Store
